@@ -19,7 +19,7 @@ import (
 func init() {
 	fw.Register(&fw.Check{
 		ID: "C19", Level: "model_checking",
-		Rule: "(a) ALL first-segment strings of length 1..5 (quick) / 1..7 (thorough) over {_ % . space a 5 F é @} through the automatic tag-name function: one pass builds name -> segment and requires injectivity (a for-all-pairs statement) and, end to end for length <= 3, that the interaction carries exactly that tag; (b) documents: URL block (implicit / parenthesised) with URL-level Tags in {none, one, two} x two methods each with own Tags in {none, one, two} x protocol {http, json-rpc} x a path-bearing method that follows (hoisted out of the implicit block) x tags declared before / after use, with / without annotation and description x undeclared tag; oracle: own Tags, else the enclosing URL's, else the single automatic tag; tag entries and interactions reference each other mutually; title = annotation or name; undeclared => rejected; non-trivial = every document / every string with an escaped character; distinct = distinct documents and strings ; E-REFCAT (see C04) over the fixtures, the pool selections and every document the generators of C04 and C13 build: tags of every interaction = own Tags, else the enclosing URL's, else the automatic tag; tag entries = declared + automatic, mutual membership, titles; undeclared tag => rejected ; the two methods of the block in every HTTP method kind (each kind once first with Tags as first child, once second with Tags as last child) ; a bare Description directly before each method's Tags (the free text ends where the Tags line starts)",
+		Rule: "(a) ALL first-segment strings of length 1..5 (quick) / 1..7 (thorough) over {_ % . space a 5 F é @ 2 0} through the automatic tag-name function: one pass builds name -> segment and requires injectivity (a for-all-pairs statement) and, end to end for length <= 3, that the interaction carries exactly that tag; (b) documents: URL block (implicit / parenthesised) with URL-level Tags in {none, one, two} x two methods each with own Tags in {none, one, two} x protocol {http, json-rpc} x a path-bearing method that follows (hoisted out of the implicit block) x tags declared before / after use, with / without annotation and description x undeclared tag; oracle: own Tags, else the enclosing URL's, else the single automatic tag; tag entries and interactions reference each other mutually; title = annotation or name; undeclared => rejected; non-trivial = every document / every string with an escaped character; distinct = distinct documents and strings ; E-REFCAT (see C04) over the fixtures, the pool selections and every document the generators of C04 and C13 build: tags of every interaction = own Tags, else the enclosing URL's, else the automatic tag; tag entries = declared + automatic, mutual membership, titles; undeclared tag => rejected ; the two methods of the block in every HTTP method kind (each kind once first with Tags as first child, once second with Tags as last child) ; a bare Description directly before each method's Tags (the free text ends where the Tags line starts)",
 		Run:  runC19, QuickCap: 8 * time.Minute, ThoroughCap: 40 * time.Minute,
 	})
 }
@@ -37,7 +37,9 @@ func runC19(c *fw.Ctx) {
 func c19Names(c *fw.Ctx) {
 	opt := drv.Options{FixedSeed: true}
 	// (a) automatic names
-	alpha := []string{"_", "%", ".", " ", "a", "5", "F", "é", "@"}
+	// the characters the name function treats specially, and the digits that let a written "_25" /
+	// "_20" look like the escape of '%' / ' '
+	alpha := []string{"_", "%", ".", " ", "a", "5", "F", "é", "@", "2", "0"}
 	maxLen, e2eLen := 5, 3
 	if !c.Quick() {
 		maxLen, e2eLen = 7, 4
@@ -254,7 +256,10 @@ func genC19(c *fw.Ctx) {
 											if undeclared && undeclName == "@first" {
 												nodes = append(nodes, n("GET", "/first").WithParen().WithKids(n("200", "any")))
 											}
-											decl := []*doc.Node{n("TAG", "@g").WithAnn("Group G"), n("TAG", "@k").WithKids(n("Description").WithBody("about k"))}
+											// the annotation of a declared tag is free text: ordinary, looking like the title of
+										// an automatic tag ("/..."), looking like a tag name
+										gTitle := []string{"Group G", "/g looks like a path", "@k"}[(m1+m2+ui)%3]
+										decl := []*doc.Node{n("TAG", "@g").WithAnn(gTitle), n("TAG", "@k").WithKids(n("Description").WithBody("about k"))}
 											// a declared tag that has the automatic name of the URL's first segment: the
 											// tagless interactions on that path belong to it, and it keeps its title
 											declU := !undeclared && (m1+m2+ui)%2 == 1
@@ -322,6 +327,15 @@ func genC19(c *fw.Ctx) {
 												continue
 											}
 											if !o.OK() {
+												// the annotation of a declared tag is its title and nothing else: the same
+												// document with the ordinary annotation accepted => this one accepted
+												if gTitle != "Group G" {
+													plain := strings.Replace(text, "TAG @g // "+gTitle, "TAG @g // Group G", 1)
+													if plain != text && drv.RunMem("root.jst", plain, opt).OK() {
+														c.Violate("annotation-changes-verdict", "C19:tag-annotation-verdict", fmt.Sprintf("%s: with the annotation %q on TAG @g the document is %s, with \"Group G\" it is accepted", label, gTitle, o.Short()), map[string]interface{}{"text": text})
+														continue
+													}
+												}
 												// the property speaks about the tags of interactions of accepted documents; a
 												// rejection (e.g. URL-level Tags next to Protocol) is not judged, only counted
 												c.Count("documents_rejected_not_judged", 1)
@@ -329,7 +343,7 @@ func genC19(c *fw.Ctx) {
 												continue
 											}
 											c.Count("documents_accepted_and_compared", 1)
-											titles := map[string]string{"@g": "Group G", "@k": "@k"}
+											titles := map[string]string{"@g": gTitle, "@k": "@k"}
 											if declU {
 												titles["@u"] = "U group"
 											}
